@@ -122,8 +122,8 @@ CLAIMS = {
                 "it is seed 1 or strictly closer to it), C07_split_nonempty (both halves non-empty for any entries), C07_valid state that "
                 "it has the clauses of the property. Equality of the code with it: correspondence on sorted AND leaf-order reports after "
                 "every operation; three-way differential with the legacy uint8/int64 variants."
-                + GEN.format(src="_BFSubcluster.merge_subcluster of bitbirch.py (the leaf step: merged iff the criterion accepts; theorem C07_code_leaf)", prop="C07"),
-        "note": TB + "PARTIAL: that the code equals the specification is differential (generated histories), not a proof; the legacy "
+                + GEN.format(src="_BFSubcluster.merge_subcluster of bitbirch.py (the leaf step: merged iff the criterion accepts; theorem C07_code_leaf) and the whole insertion step _BFNode.insert_bf_subcluster (sub-clusters as handles; np.argmax of the similarities, closest.child, the results of merge_subcluster / the recursive call / _split_node are inputs and the calls are logged; theorems C07_code_insert_empty / _leaf / _inner: the five cases of the algorithm as equalities of flag, entry list, centroid cache and call log, C07_code_leaf_conforms: flag and entry count = the model's insertLeaf; BBProofs/GenEq13.lean)", prop="C07"),
+        "note": TB + "PARTIAL: that the code equals the specification is differential (generated histories) for the routing kernel and _split_node (seed search, redistribution), proved for the insertion step's case structure given their results; the legacy "
                 "implementations are not modelled (three-way differential only, cases where they raise are dropped and counted).",
         "technique": TGEN,
     },
